@@ -365,3 +365,56 @@ Qed.
 Lemma nodata_of_spec {A} (kw attr : option A) :
   nodata_of kw attr = match kw with Some v => Some v | None => attr end.
 Proof. reflexivity. Qed.
+
+(** * 6. statements used verbatim by Props/C15.v *)
+Lemma layout_2d_thm h w ya b y x :
+  norm_layout [h; w] (h, w) ya = Ok (L2d, (1, h, w)) /\
+  src_index L2d (1, h, w) b y x = ravel [h; w] [y; x].
+Proof. split; [apply norm_layout_2d_ok | apply src_index_2d]. Qed.
+
+Lemma layout_band_last_thm h w nb b y x :
+  norm_layout [h; w; nb] (h, w) None = Ok (LBandLast, (nb, h, w)) /\
+  norm_layout [h; w; nb] (h, w) (Some 0) = Ok (LBandLast, (nb, h, w)) /\
+  src_index LBandLast (nb, h, w) b y x = ravel [h; w; nb] [y; x; b].
+Proof.
+  split; [apply norm_layout_band_last_guess|]. split; [apply norm_layout_band_last_known|].
+  apply src_index_band_last.
+Qed.
+
+Lemma layout_band_first_thm nb h w b y x :
+  ((nb, h) <> (h, w) -> norm_layout [nb; h; w] (h, w) None = Ok (LBandFirst, (nb, h, w))) /\
+  norm_layout [nb; h; w] (h, w) (Some 1) = Ok (LBandFirst, (nb, h, w)) /\
+  src_index LBandFirst (nb, h, w) b y x = ravel [nb; h; w] [b; y; x].
+Proof.
+  split; [apply norm_layout_band_first_guess|]. split; [apply norm_layout_band_first_known|].
+  apply src_index_band_first.
+Qed.
+
+Lemma layout_map_onto_thm l nb h w :
+  layout_dims_ok l (nb, h, w) -> 0 <= nb -> 0 <= h -> 0 <= w ->
+  (forall b y x, sample_in_range (nb, h, w) b y x -> 0 <= src_index l (nb, h, w) b y x < nb * h * w) /\
+  (forall t, 0 <= t < nb * h * w ->
+     exists b y x, sample_in_range (nb, h, w) b y x /\ src_index l (nb, h, w) b y x = t) /\
+  Permutation (readback_indices l (nb, h, w)) (zrange (nb * h * w)).
+Proof.
+  intros Hl Nb Nh Nw. split; [intros; apply src_index_bound; auto|].
+  split; [intros; apply src_index_surj; auto | apply readback_is_permutation; auto].
+Qed.
+
+Lemma overview_levels_thm req w h :
+  (forall l, req = Some l -> overview_levels req w h = l) /\
+  (req = None -> Z.min w h < 512 -> overview_levels req w h = []) /\
+  (req = None -> 512 <= w -> 512 <= h -> overview_levels req w h = [2; 4; 8; 16; 32]).
+Proof.
+  split; [intros l ->; reflexivity|]. split.
+  - intros -> H. apply overview_levels_default_small; auto.
+  - intros -> Hw Hh. apply overview_levels_default_large; auto.
+Qed.
+
+Lemma readback_generic {A File : Type}
+      (enc : (Z * Z * Z) -> (Z -> Z -> Z -> A) -> File) (dec : File -> Z -> Z -> Z -> A)
+      (contract : forall dims f b y x, sample_in_range dims b y x -> dec (enc dims f) b y x = f b y x)
+      (pix : Z -> A) shape g ya l dims b y x :
+  norm_layout shape g ya = Ok (l, dims) -> sample_in_range dims b y x ->
+  dec (enc dims (fun b y x => pix (src_index l dims b y x))) b y x = pix (src_index l dims b y x).
+Proof. intros _ R. apply contract. exact R. Qed.
